@@ -101,6 +101,12 @@ impl W {
                     self.queries += 2;
                 }
                 4 => { // non-zero columns from the first dense column
+                    // the dense implementation admits any start column
+                    let sc = rng.below(self.w);
+                    if self.defined(r, sc, self.w) {
+                        assert_eq!(self.d.query_non_zero_columns(r, sc), self.ones(r, sc, self.w), "dense nonzero cols row {r} from {sc} w {}", self.w);
+                        self.queries += 1;
+                    }
                     if self.tail == 0 { continue; }
                     let fd = self.first_dense();
                     if !self.defined(r, fd, self.w) { continue; }
@@ -133,7 +139,7 @@ impl W {
     }
 }
 
-pub fn run_sequence(seed: u64) -> (usize, usize, usize, [usize; 4]) {
+pub fn run_sequence(seed: u64) -> (usize, usize, usize, [usize; 6]) {
     let mut rng = Rng(crate::common::Rng::new(seed));
     let w = match rng.below(6) { 0 => [63, 64, 65, 127, 128, 129, 191, 192, 193, 255, 256, 257][rng.below(12)], 1 => rng.range(1, 12), 2 => rng.range(200, 420), _ => rng.range(2, 200) };
     let cap = WIDTH_CAP.load(std::sync::atomic::Ordering::Relaxed);
@@ -142,15 +148,24 @@ pub fn run_sequence(seed: u64) -> (usize, usize, usize, [usize; 4]) {
     let tail_cap = if rng.chance(20) { 260 } else { 70 };
     let tail0 = if rng.chance(30) { 0 } else if rng.chance(25) { [63usize, 64, 65, 127, 128, 129, 192][rng.below(7)].min(w - 1) } else { rng.range(0, std::cmp::min(w - 1, tail_cap)) };
     let mut x = W { m: vec![vec![0u8; w]; h], h, w, tail: tail0, indexed: false, col_valid: vec![true; w], d: DenseBinaryMatrix::new(h, w, tail0), s: SparseBinaryMatrix::new(h, w, tail0), ops: 0, queries: 0, d4_avoided: 0 };
-    let mut feat = [0usize; 4]; // freezes, partial adds, resizes, word-boundary crossings of the tail
+    let mut feat = [0usize; 6]; // freezes, partial adds, resizes, word-boundary crossings of the tail, re-enabled index, dense-only narrowing resizes
     // construction: LDPC/LT-like sparse fill
     let density = rng.range(1, 6);
     for r in 0..h { for _ in 0..density { let c = rng.below(w); let v = if rng.chance(90) { 1 } else { 0 }; x.set(r, c, v); } }
     for _ in 0..rng.below(h * 2 + 1) { let (r, c) = (rng.below(h), rng.below(w)); let v = rng.below(2) as u8; x.set(r, c, v); }
     x.check_all("after construction"); x.random_queries(&mut rng, 30);
+    // one to three rounds of (indexed phase, un-indexed phase): the index is rebuilt by every enable, so
+    // whatever set / row additions / resizes happened while it was off must be reflected afterwards
+    let rounds = 1 + rng.chance(45) as usize + rng.chance(20) as usize;
+    for round in 0..rounds {
+    let h = x.h; let w = x.w;
+    if h == 0 || w == 0 { break; }
     let sparse_ones: usize = (0..h).map(|r| x.ones(r, 0, x.first_dense()).len()).sum();
-    if sparse_ones > 0 && rng.chance(85) {
+    if sparse_ones > 0 && x.first_dense() > 0 && rng.chance(if round == 0 { 85 } else { 95 }) {
         x.d.enable_column_access_acceleration(); x.s.enable_column_access_acceleration(); x.indexed = true;
+        // (col_valid is deliberately not reset: the crate's own debug tracker keeps a column that a row
+        // addition invalidated under the index invalid for good, so such columns are never queried again)
+        if round > 0 { feat[4] += 1; x.random_queries(&mut rng, 12); }
         let partial_mode = rng.chance(35);
         let mut i = 0;
         let steps = rng.range(1, w);
@@ -218,7 +233,9 @@ pub fn run_sequence(seed: u64) -> (usize, usize, usize, [usize; 4]) {
                            let start = if rng.chance(25) { feat[1] += 1; x.first_dense() } else { 0 }; x.add_rows(a, b, start); }
             5 => { let (r, c) = (rng.below(x.h), rng.below(x.w)); let v = rng.below(2) as u8; x.set(r, c, v); }
             6 => { if x.first_dense() >= 2 { let a = rng.below(x.first_dense()); let b = rng.below(x.first_dense()); x.swap_cols(a, b, &mut rng); } }
-            7 => { if rng.chance(25) {
+            // resize only in the last round: the sparse implementation reserves it for the time "after column
+            // indexing is no longer needed", so the index is never re-enabled after a resize
+            7 => { if round + 1 == rounds && rng.chance(25) {
                        let new_w = if rng.chance(50) || x.w - x.tail < 1 { x.w } else { rng.range(1, x.w - x.tail) };
                        let lo = new_w; let new_h = rng.range(std::cmp::min(lo, x.h), x.h);
                        x.d.resize(new_h, new_w); x.s.resize(new_h, new_w);
@@ -231,10 +248,53 @@ pub fn run_sequence(seed: u64) -> (usize, usize, usize, [usize; 4]) {
         }
         if x.h == 0 || x.w == 0 { break; }
     }
+    }
     x.check_all("end");
+    if x.h > 0 && x.w > 0 { x.random_queries(&mut rng, 10); }
     // clone continues identically
     let (d2, s2) = (x.d.clone(), x.s.clone());
     for r in 0..x.h { for c in 0..x.w { assert_eq!(d2.get(r, c), x.d.get(r, c)); assert_eq!(s2.get(r, c), x.s.get(r, c)); } }
+    // dense-only epilogue: the dense implementation admits shrinking to ANY smaller size (also inside a
+    // 64-bit word); the sparse one does not, so this part runs on the dense matrix and the model alone
+    if x.h >= 1 && x.w >= 2 && rng.chance(60) {
+        let mut d = d2;
+        let mut m = x.m.clone();
+        let (mut hh, mut ww) = (x.h, x.w);
+        for _ in 0..rng.range(1, 3) {
+            if ww < 2 { break; }
+            let nw = rng.range(1, ww - 1); let nh = rng.range(1, hh);
+            d.resize(nh, nw); m.truncate(nh); for row in m.iter_mut() { row.truncate(nw); }
+            hh = nh; ww = nw; feat[5] += 1; x.ops += 1;
+            assert_eq!(d.height(), hh); assert_eq!(d.width(), ww);
+            for _ in 0..rng.range(3, 25) {
+                let r = rng.below(hh);
+                match rng.below(7) {
+                    0 => { if hh >= 2 { let mut b = rng.below(hh); if b == r { b = (b + 1) % hh; } d.add_assign_rows(r, b, 0);
+                           for c in 0..ww { let (p, q) = (m[r][c], m[b][c]); m[r][c] = if p == U || q == U { U } else { p ^ q }; } x.ops += 1; } }
+                    1 => { let c = rng.below(ww); let v = rng.below(2) as u8; d.set(r, c, oct(v)); m[r][c] = v; x.ops += 1; }
+                    2 => { let b = rng.below(hh); d.swap_rows(r, b); m.swap(r, b); x.ops += 1; }
+                    3 => { let sc = rng.below(ww); if m[r][sc..].iter().all(|&v| v != U) {
+                           let want: Vec<usize> = (sc..ww).filter(|&c| m[r][c] == 1).collect();
+                           assert_eq!(d.query_non_zero_columns(r, sc), want, "dense nonzero cols after narrowing resize to width {ww}, row {r} from {sc}"); x.queries += 1; } }
+                    4 => { let a = rng.below(ww); let b = rng.range(a + 1, ww); if m[r][a..b].iter().all(|&v| v != U) {
+                           let want = (a..b).filter(|&c| m[r][c] == 1).count();
+                           assert_eq!(d.count_ones(r, a, b), want, "dense count_ones after narrowing resize");
+                           let got: Vec<(usize, Octet)> = d.get_row_iter(r, a, b).collect();
+                           assert_eq!(got.len(), b - a);
+                           for (k, (c, v)) in got.iter().enumerate() { assert_eq!(*c, a + k); assert_eq!(*v, oct(m[r][*c])); }
+                           x.queries += 2; } }
+                    5 => { let sc = rng.below(ww); if m[r][sc..].iter().all(|&v| v != U) {
+                           let dv = d.get_sub_row_as_octets(r, sc); assert_eq!(dv.len(), ww - sc);
+                           assert_eq!(dv.verif_words().0, &super::kern::pack_bits(&m[r][sc..])[..], "dense packed sub row after narrowing resize"); x.queries += 1; } }
+                    _ => { let c = rng.below(ww); let a = rng.below(hh); let b = rng.range(a + 1, hh);
+                           let got: BTreeSet<u32> = d.get_ones_in_column(c, a, b).into_iter().collect();
+                           for rr in a..b { if m[rr][c] != U { assert_eq!(got.contains(&(rr as u32)), m[rr][c] == 1, "dense ones_in_col after narrowing resize"); } }
+                           x.queries += 1; }
+                }
+            }
+            for r in 0..hh { for c in 0..ww { if m[r][c] != U { assert_eq!(d.get(r, c), oct(m[r][c]), "dense get({r},{c}) after narrowing resize"); } } }
+        }
+    }
     (x.ops, x.queries, x.d4_avoided, feat)
 }
 
